@@ -456,6 +456,100 @@ def _moved_then_swapped(ctx, fn):
                site="%s@moved-then-swapped" % fn.qname)
 
 
+# ---------------------------------------------------------------- dependent clauses (pattern (b) of DESIGN section 6)
+class _DependentSkip(Exception):
+    pass
+
+
+class _SubCtx(Ctx):
+    """the context a lower component's rules run in when they are re-evaluated for an upper component: floors are
+    recorded but never unmet (the lower component's own check guards them), 'cannot decide' skips the lower module
+    instead of breaking the upper check"""
+
+    def floor(self, rule, count, minimum, what):
+        self.floors.append({"rule": rule, "count": count, "min": minimum, "what": what})
+
+    def broken(self, msg):
+        raise _DependentSkip(msg)
+
+
+def _reachable_view(fb, root_files, stop_files=()):
+    """a view of the fact base restricted to what the component defined in `root_files` can execute: the functions of
+    those files, everything they call (resolved callees, transitively) and the lambdas defined inside any of these"""
+    import copy
+    view = copy.copy(fb)
+    view.tus = []
+    total = 0
+    for tu in fb.tus:
+        keep = set(fid for fid, fn in tu.fns.items() if fn.file in root_files)
+        by_q = {}
+        for fn in tu.fns.values():
+            if fn.lambda_ and fn.outer:
+                by_q.setdefault(fn.outer, []).append(fn.id)
+        work = list(keep)
+        while work:
+            fn = tu.fns[work.pop()]
+            nxt = [ev.get("cid") for _, ev in fn.all_events() if ev.get("cid") is not None]
+            nxt += by_q.get(fn.qname, [])
+            for c in nxt:
+                if c in tu.fns and c not in keep:
+                    keep.add(c)
+                    work.append(c)
+        t2 = copy.copy(tu)
+        t2.fns = dict((fid, fn) for fid, fn in tu.fns.items() if fid in keep)
+        total += len(t2.fns)
+        view.tus.append(t2)
+    return view, total
+
+
+def dependent_rules(ctx, module):
+    """DEPENDS = {lower property: reason}: the component this property is about is built on lower components whose own
+    clauses are necessary for it too (an execution queue strands an item when the bounded queue under it loses one). The
+    lower property's rules are re-evaluated here on *this* property's facts, restricted to the function instances that the
+    component's own code (functions defined in its anchor files that are not anchor files of the lower property) can reach
+    through resolved calls - i.e. on the instantiations it really uses - and reported under this property's id as
+    '<this>.D:<lower rule>'. Floors and 'cannot decide' of the lower rules are the lower check's business and ignored here."""
+    deps = getattr(module, "DEPENDS", None)
+    if not deps:
+        return
+    import importlib
+    import traceback
+    own = anchor_files(ctx.prop)
+    summary = {}
+    for dep, why in sorted(deps.items()):
+        dmod = importlib.import_module(dep)
+        roots = own - anchor_files(dep)
+        view, nf = _reachable_view(ctx.fb, roots)
+        sub = _SubCtx(dep, ctx.tier)
+        sub.fb = view
+        sub.units = ctx.units
+        status = "evaluated"
+        try:
+            mark_unknown_helpers(sub)
+            dmod.run(sub)
+        except _DependentSkip as e:
+            status = "stopped: %s" % str(e)[:160]
+        except AnalysisBroken as e:
+            status = "stopped: %s" % str(e)[:160]
+        except Exception as e:     # a rule that meets a shape it was not written for decides nothing
+            status = "stopped: %s: %s" % (type(e).__name__, str(e)[:120])
+            if os.environ.get("BSA_DEBUG"):
+                traceback.print_exc()
+        n = 0
+        for o in sub.obligations:
+            o = dict(o)
+            o["rule"] = "%s.D:%s" % (ctx.prop, o["rule"])
+            ctx.obligations.append(o)
+            if not o["ok"]:
+                o["msg"] = "[clause of %s on the instantiation %s uses: %s] %s" % (dep, ctx.prop, why, o.get("msg", ""))
+                ctx.violations.append(o)
+            n += 1
+        summary[dep] = {"functions_reachable": nf, "obligations": n, "status": status, "why": why}
+        if status != "evaluated":
+            ctx.note("dependent rules of %s: %s (after %d obligations)" % (dep, status, n))
+    ctx.extra_cov["dependent_clauses"] = summary
+
+
 def run_property(prop, module, tier):
     """returns exit code"""
     ctx = Ctx(prop, tier)
@@ -487,6 +581,7 @@ def run_property(prop, module, tier):
             mark_unknown_helpers(ctx)
             module.run(ctx)
             generic_rules(ctx, module)
+            dependent_rules(ctx, module)
             if hasattr(module, "extra") and tier == "thorough":
                 module.extra(ctx)
             if not ctx.obligations:
